@@ -153,12 +153,14 @@ func runC04(c *Ctx) {
 		c.undecided("R4", "instance-floor", "", fmt.Sprintf("%d conversion / encoder call sites found, 7 confirmed by hand", nSites))
 	}
 	jsonTextAsData(c, "R5")
+	newValueTable(c, "R15")
 	c.shared("R7", "C14/R4", "what -o writes is the root selected last: every selector's result becomes a root (a null result included)", keyHas("selector-root-unconditional", "root-list"), func(s *Ctx) { rootsPerValue(s, "R4") })
 	stringIndexArm(c, "R8")
 	c.shared("R10", "C15/R3", "a program that only reads leaves the document as it was: sort works on a clone with fresh cells (assigning into the sorted copy does not write into the document)", keyHas("sort-clone", "array.sort effects"), func(s *Ctx) { c15R3(s, nativeMethods(s.P)) })
 	if eu := c.P.LangFunc("(*Evaluator).evalUnaryExpr"); eu != nil {
 		c.shared("R11", "C09/R5", "++ / -- on a copy (a for-in variable) does not reach the document: numbers are never updated in place, the new value is assigned through evalAssignment", nil, func(s *Ctx) { incdecTable(s, "R5", eu) })
 	}
+	c.shared("R16", "C14/R2", "the document is what the input bytes say: the interpreter reads the opened file (or standard input) itself — no filtering reader in between that drops or rewrites bytes", keyHas("input-files", "stdin-only"), c14R2)
 	c.shared("R14", "C09/R1", "a program that only reads leaves the document as read: member and index reads store nothing through their operand cells (an explicit null in the document is not given a shape by reading through it)", nil, c09R1)
 	c.shared("R12", "C15/R2", "a method called on a copy of a document array does not write into the backing array the document still covers: pop and popfirst only re-slice, push appends", keyHas("array.pop", "array.push"), func(s *Ctx) { c15R2(s, nativeMethods(s.P)) })
 	if es := c.P.LangFunc("(*Evaluator).evalStatement"); es != nil {
@@ -550,5 +552,72 @@ func jsonTextAsData(c *Ctx, rule string) {
 			}
 		}
 		c.check(okOrder && errV != nil && FactsOf(run).At(jcall.Block()).KnownNil(errV), rule, "json-after-successful-run", p.InstrPos(jcall), "GetRootJson runs only after EvalProgram succeeded", "GetRootJson is not dominated by a successful EvalProgram")
+	}
+}
+
+// newValueTable: what a decoded JSON value (and the Go values the interpreter itself hands in) becomes.
+func newValueTable(c *Ctx, rule string) {
+	p := c.P
+	c.note("%s value-construction-table: NewValue's type switch has exactly the documented arms and results — []*Cell kept as is; []interface{} / []string: one fresh cell per element, in order; map[string]interface{}: one fresh cell per member; bool, float64 kept as they are; int / int64 converted to float64; string; nil -> null — each with its prototype. An extra arm (a json.Number fast path) or a shared cell for equal elements changes what the input document is read as.", rule)
+	nv := p.LangFunc("NewValue")
+	if nv == nil {
+		c.undecided(rule, "NewValue", "", "anchor not found")
+		return
+	}
+	want := []string{
+		"lang.Value{Tag: ValueArray, Array: srcVal.([]*lang.Cell)#0, Proto: lang.getArrayPrototype()}",
+		"lang.Value{Tag: ValueArray, Array: φslice⟨append(φslice, [&…][:]) | make([]*lang.Cell, 0)⟩, Proto: lang.getArrayPrototype()}",
+		"lang.Value{Tag: ValueObj, Obj: &make(map[string]*lang.Cell), Proto: lang.getObjPrototype()}",
+		"lang.Value{Tag: ValueBool, Bool: &srcVal.(bool)#0}",
+		"lang.Value{Tag: ValueNum, Num: &srcVal.(float64)#0, Proto: lang.getNumPrototype()}",
+		"lang.Value{Tag: ValueNum, Num: &float64(srcVal.(int)#0), Proto: lang.getNumPrototype()}",
+		"lang.Value{Tag: ValueNum, Num: &float64(srcVal.(int64)#0), Proto: lang.getNumPrototype()}",
+		"lang.Value{Tag: ValueStr, Str: &srcVal.(string)#0, Proto: lang.getStrPrototype()}",
+		"lang.Value{Tag: ValueNil}",
+	}
+	got := map[string]bool{}
+	for _, rc := range p.successResults(nv) {
+		got[rc.Value] = true
+	}
+	miss, extra := diffSets(got, setOf(want))
+	c.check(len(miss)+len(extra) == 0, rule, "value-construction results", p.Pos(nv.Pos()), "the documented arms", fmt.Sprintf("NewValue's results differ from the documented table: unexpected {%s}; missing {%s}", strings.Join(extra, " ; "), strings.Join(miss, " ; ")))
+	// the type cases
+	var cases []string
+	for _, prm := range nv.Params {
+		for _, tc := range typeCasesOn(nv, prm) {
+			cases = append(cases, tc.Type.String())
+		}
+	}
+	sort.Strings(cases)
+	wantCases := "[]*" + langPath + ".Cell,[]interface{},[]string,bool,float64,int,int64,map[string]interface{},string"
+	c.check(strings.Join(cases, ",") == wantCases, rule, "value-construction cases", p.Pos(nv.Pos()), wantCases, "NewValue switches on {"+strings.Join(cases, ", ")+"}; documented {"+wantCases+"}")
+	// one fresh cell per element / member: every cell that enters the array or the map is made by a
+	// NewCell call (or allocation) in the loop body that stores it
+	n := 0
+	allInstrs(nv, func(in ssa.Instruction) {
+		var elem ssa.Value
+		switch x := in.(type) {
+		case *ssa.MapUpdate:
+			elem = x.Value
+		case *ssa.Store:
+			if ia, ok := x.Addr.(*ssa.IndexAddr); ok && strings.Contains(ia.X.Type().String(), "Cell") {
+				elem = x.Val
+			}
+		}
+		if elem == nil || !strings.HasSuffix(elem.Type().String(), ".Cell") {
+			return
+		}
+		n++
+		fresh := false
+		switch e := elem.(type) {
+		case *ssa.Call:
+			fresh = staticCalleeIs(e, "lang.NewCell") && e.Block() == in.Block()
+		case *ssa.Alloc:
+			fresh = e.Block() == in.Block()
+		}
+		c.check(fresh, rule, fmt.Sprintf("value-construction fresh-cell #%d", n), p.InstrPos(in), "a cell made for this element", "an element / member cell stored by NewValue is "+p.RenderShort(elem)+", not a cell made for that element in the same iteration: equal elements of the input (several nulls) share one cell, and an assignment to one changes the others")
+	})
+	if n < 3 {
+		c.undecided(rule, "value-construction fresh-cell", p.Pos(nv.Pos()), fmt.Sprintf("%d element stores found in NewValue, 3 expected", n))
 	}
 }
